@@ -191,6 +191,7 @@ def make_op(ctx, kind, state, vals_new, fresh):
                 {'generated': (('loc1', 'g%d' % fresh), a)})
     if label == 'div':
         d = []
+        bare = ctx.flag('second_daughter_without_initial_state')
         for suffix in ('0', '1'):
             a = agent()
             d.append({'key': first + suffix, 'processes': a['processes'],
@@ -199,6 +200,8 @@ def make_op(ctx, kind, state, vals_new, fresh):
                       'initial_state': {'s': {'x': vals_new},
                                         'tag': vals_new}
                       if suffix == '0' else {}})
+            if suffix == '1' and bare:
+                del d[-1]['initial_state']     # the entry is optional
         return ({'loc1': {'_divide': {'mother': first, 'daughters': d}}},
                 [('loc1', first)],
                 [('loc1', first + '0'), ('loc1', first + '1')],
